@@ -1,7 +1,9 @@
 (* C10 -- bn256 field, group and pairing arithmetic is correct on every operand.
    What is PROVED here (for all operands): the extension-field formulas equal the schoolbook
    products of the tower, the Jacobian formulas equal the chord/tangent rule on affine coordinates
-   (over any field: F_p and F_p^2), P+(-P) and P+P take the right branches, and the constants the
+   (over any field: F_p and F_p^2), P+(-P) and P+P take the right branches, Add / Double / Neg /
+   MakeAffine give results that depend on the ELEMENTS their operands represent and not on the
+   Jacobian triples (C10_add_representation_independent ..), and the constants the
    translator reads from the source satisfy their defining equations.  What is NOT proved
    (DESIGN.md, "Limits"): associativity of the group law, bilinearity and non-degeneracy of the
    optimal ate pairing as computed by miller / finalExponentiation, and -- in this file -- the
@@ -11,7 +13,7 @@
    (math/big, go-ethereum's big-integer bn256, the EVM precompiles 0x06-0x08). *)
 From Coq Require Import ZArith List Bool.
 From DosVerif Require Import Base.Val Base.Field Gen.BnConsts Models.Bn Models.BnPairing
-     Proofs.BnFieldProofs Proofs.BnTowerProofs.
+     Proofs.BnFieldProofs Proofs.BnRepr Proofs.BnTowerProofs.
 Import ListNotations.
 
 (* ---- F_p^2 over any field with the field laws *)
@@ -113,6 +115,50 @@ Theorem C10_make_affine :
   let r := make_affine O a in jz r = f1 O /\ jx r = aff_x O a /\ jy r = aff_y O a.
 Proof. exact (@make_affine_spec). Qed.
 Print Assumptions C10_make_affine.
+
+(* ---- the operations are functions of the elements, not of their representations.
+   jeqv a a': both triples are the point at infinity, or both are finite with the same affine
+   coordinates.  Whatever branch (identity, chord, tangent, inverse) each pair of triples takes, equal
+   elements give equal elements - the operands may be normalised or not, fresh or the result of any
+   earlier computation.  The side condition excludes finite points of order two (y = 0), of which
+   the prime-order groups G1 and G2 have none. *)
+Theorem C10_add_representation_independent :
+  forall (K : Type) (O : Fops K), Flaws O -> forall a a' b b' : jac (K:=K),
+  fadd O (f1 O) (f1 O) <> f0 O -> (jz a <> f0 O -> jy a <> f0 O) ->
+  jeqv O a a' -> jeqv O b b' -> jeqv O (jac_add O a b) (jac_add O a' b').
+Proof. exact (@jac_add_respects). Qed.
+Print Assumptions C10_add_representation_independent.
+
+Theorem C10_double_representation_independent :
+  forall (K : Type) (O : Fops K), Flaws O -> forall a a' : jac (K:=K),
+  fadd O (f1 O) (f1 O) <> f0 O -> (jz a <> f0 O -> jy a <> f0 O) ->
+  jeqv O a a' -> jeqv O (jac_double O a) (jac_double O a').
+Proof. exact (@jac_double_respects). Qed.
+Print Assumptions C10_double_representation_independent.
+
+Theorem C10_neg_representation_independent :
+  forall (K : Type) (O : Fops K), Flaws O -> forall a a' : jac (K:=K),
+  jeqv O a a' -> jeqv O (jac_neg O a) (jac_neg O a').
+Proof. exact (@jac_neg_respects). Qed.
+Print Assumptions C10_neg_representation_independent.
+
+(* what is marshalled (the normal form) is the same for all representations of a finite element *)
+Theorem C10_normal_form_canonical :
+  forall (K : Type) (O : Fops K), Flaws O -> forall a a' : jac (K:=K),
+  jz a <> f0 O -> jeqv O a a' -> make_affine O a = make_affine O a'.
+Proof. exact (@make_affine_canonical). Qed.
+Print Assumptions C10_normal_form_canonical.
+
+(* non-vacuity over Z/101Z: (4, 8, 2) and (9, 27, 3) both represent the affine point (1, 1) *)
+Example C10_representations_example :
+  let O := zq_ops 101 in
+  let jv := fun a : jac (K:=zq 101) => (zv (jx a), zv (jy a), zv (jz a)) in
+  let a := mkjac (zq_of 101 4) (zq_of 101 8) (zq_of 101 2) in
+  let a' := mkjac (zq_of 101 9) (zq_of 101 27) (zq_of 101 3) in
+  jv a <> jv a' /\ jv (make_affine O a) = jv (make_affine O a')
+  /\ jv (make_affine O (jac_add O a a')) = jv (make_affine O (jac_double O a)).
+Proof. cbv zeta. split; [vm_compute; discriminate|]. split; vm_compute; reflexivity. Qed.
+Print Assumptions C10_representations_example.
 
 (* ---- the constants of the source (re-read on every run) *)
 Theorem C10_consts_montgomery :
